@@ -487,7 +487,14 @@ func run(c Case) *kit.Result {
 			if n5 == "prefix" {
 				how = "the edits only appended, the text of the opened package must be a prefix of the saved text"
 			}
-			for _, cat := range textLoss(items, tq, n5 == "equal", openCats()) {
+			re, _ := cellOrderItems(P.Parts["word/document.xml"])
+			_, reordered, loss := textLoss(items, re, tq, n5 == "equal", openCats())
+			if reordered {
+				// nothing (more) is lost, but text moved: the order is the one a writer produces that emits a cell's own
+				// paragraphs before the cell's nested tables
+				res.Fail("C04.N5.cell-order", "%s: cells that hold a nested table before a paragraph are written back with their paragraphs first, the w:t text is kept but its order changes: %q before, %q after", how, clip(tp), clip(tq))
+			}
+			for _, cat := range loss {
 				if cat == "other" {
 					res.Fail("C04.N5.other", "%s: %d w:t / %q before, %d w:t / %q after; not explained by losing only nested / multi-w:t text%s", how, len(items), clip(tp), ntq, clip(tq), lostHint(c.Pkg, tq))
 				} else {
